@@ -27,7 +27,11 @@ func c01Opts() ship1Opts {
 }
 
 func setupC01(x *Ctx) {
-	if x.Chance("c01-hub", 0.03) {
+	hubShare := 0.03
+	if x.Feat(FeatMoreInputs) {
+		hubShare = 0.06
+	}
+	if x.Chance("c01-hub", hubShare) {
 		c01Hub(x)
 		return
 	}
